@@ -115,6 +115,59 @@ def _sig(fn):
     return got
 
 
+def _kind(v) -> str:
+    """kind of a value captured by a closure's default argument (independent of the argument's NAME)"""
+    import types
+
+    from optyx.core.parameters import Parameter
+
+    if isinstance(v, Parameter):
+        return "par"
+    if isinstance(v, np.ufunc) or (callable(v) and not isinstance(v, types.FunctionType)):
+        return "ufunc"
+    if isinstance(v, types.FunctionType):
+        return "ufunc" if (getattr(v, "__module__", "") or "").startswith("numpy") else "fn"
+    if isinstance(v, list):
+        return "fns"
+    if isinstance(v, np.ndarray) and v.ndim == 1:
+        return "arr1"
+    if isinstance(v, np.ndarray) and v.ndim == 2:
+        return "arr2"
+    if isinstance(v, (int, np.integer)) and not isinstance(v, (bool, np.bool_)):
+        return "int"
+    return "num"
+
+
+# kinds of the captured values (+ a discriminating global name) -> the argument names the dispatch below is written for
+_ROLES = {
+    ("par",): ("p",), ("fn", "fn"): ("lf", "rf"), ("fn", "ufunc"): ("f", "np_f"), ("arr1", "arr1"): ("c", "idx"),
+    ("arr1", "fns"): ("c", "fns"), ("arr1",): ("idx",), ("fns",): ("fns",), ("fn",): ("vf",), ("fn", "arr2"): ("vf", "Q"),
+    ("arr1", "num"): ("idx", "k"), ("arr1", "int"): ("idx", "k"), ("arr1", "ufunc"): ("idx", "f"),
+}
+
+
+def _canon(fn):
+    """`_sig` with the lambda's own argument names replaced by canonical role names, chosen from the KINDS of the captured
+    values: renaming a lambda's defaults in the source is a harmless rewrite and must not change the decompiled IR"""
+    args, names, ops, loads = _sig(fn)
+    d = fn.__defaults__ or ()
+    if len(args) != len(d) + 1:
+        return args, names, ops, loads
+    kinds = tuple(_kind(v) for v in d)
+    if kinds in (("int",), ("num",)):
+        # `lambda x, i=idx: x[i]` subscripts, `lambda x, v=value: v` does not
+        sub = any(i.opname == "BINARY_SUBSCR" or (i.opname == "BINARY_OP" and "[" in (i.argrepr or ""))
+                  for i in dis.get_instructions(fn.__code__))
+        roles = ("i",) if sub else ("v",)
+    else:
+        roles = _ROLES.get(kinds)
+    if roles is None:
+        return args, names, ops, loads
+    ren = dict(zip(args[1:], roles))
+    ren[args[0]] = "x"
+    return ("x",) + roles, names, ops, tuple(ren.get(n, n) for n in loads)
+
+
 def _un_name(ufunc):
     from optyx.core.expressions import UnaryOp
 
@@ -155,10 +208,10 @@ def clo_ir(fn) -> str:
         if isinstance(it, str):
             out.append(it)
             continue
-        args, names, ops, loads = _sig(it)
+        args, names, ops, loads = _canon(it)
         d = it.__defaults__ or ()
         if args == ("x",):
-            if it.__code__.co_freevars == ("value",):
+            if len(it.__code__.co_freevars) == 1:
                 out.append(_k(it.__closure__[0].cell_contents))
             else:
                 raise UnknownClosure(f"{args} free={it.__code__.co_freevars}")
@@ -211,7 +264,7 @@ def clo_ir(fn) -> str:
 
 
 def vclo_ir(fn) -> str:
-    args, names, ops, loads = _sig(fn)
+    args, names, ops, loads = _canon(fn)
     d = fn.__defaults__ or ()
     if args == ("x", "idx") and "sum" not in names:
         return f"(gather {_ints(d[0])})"
